@@ -23,7 +23,7 @@ from engine.pyvc.values import *
 from engine.pyvc import models
 from engine.pyvc.interp import SFile
 from engine.pyvc.loops import LoopSpec
-from engine.pyvc.harness import toolkit, raw, where, new_engine, run_paths, path_obligations, register_fn, note_engine, qualname, exc_note, sect
+from engine.pyvc.harness import local_roles, toolkit, raw, where, new_engine, run_paths, path_obligations, register_fn, note_engine, qualname, exc_note, sect
 from contracts.py import msgs
 from contracts.py.common import view_of, install_validate_summaries, attr
 from spec import valid_msg as V
@@ -371,6 +371,12 @@ def build_parse_all(run, prop, E):
     register_fn(run, f)
     E.summaries = {"data_dump.DATADumpFile._seek2msg": seek_summary, "data_dump.DATADumpFile._parse_msg": parse_one_summary}
     skip, count = z3.Int("skip"), z3.Int("count")
+    # the accumulator is bound by use (the appended list that is returned), not by its name
+    lr = local_roles(f)
+    acc = [x for x in lr["returned"] if x in lr["appended"]]
+    if len(acc) != 1:
+        raise Unsupported("parse_all: cannot identify the returned accumulator list (%s)" % acc)
+    RES = acc[0]
     for skip_none in (True, False):
         for count_none in (True, False):
             cs = "skip=%s,count=%s" % ("None" if skip_none else "n", "None" if count_none else "n")
@@ -380,13 +386,13 @@ def build_parse_all(run, prop, E):
                 return models.obj_seq(arr, ln, lambda idt: SRef(dm.Msg, idt, {}), lambda v: v.idt)
 
             def havoc(E, fr, j):
-                fr.locals["result"] = mk_result(E, E.fresh_int("result.len"), z3.Array(E.fresh("result.ids"), I, I))
+                fr.locals[RES] = mk_result(E, E.fresh_int("result.len"), z3.Array(E.fresh("result.ids"), I, I))
                 E.ghost["file"].pos = E.fresh_int("pos")
                 E.ghost["rec"] = z3.simplify(S + j)
                 fr.locals.pop("msg", None)
 
             def inv(E, fr, j, S=S, count_none=count_none):
-                r = fr.locals["result"]
+                r = fr.locals[RES]
                 m = z3.Int("m")
                 rl = z3.IntVal(len(r)) if isinstance(r, list) else Z(r.length)
                 ra = (lambda i: z3.IntVal(-1)) if isinstance(r, list) else (lambda i: z3.Select(r.arr, i))
